@@ -199,6 +199,7 @@ def cWriteHeaders (rq : Req) (c0 : CSt) (code : Nat) (h : HMap) (chunk : Bytes) 
     else some none
   match exp with
   | none => (c, true)            -- ValueError from parse_int: nothing written, `expected` keeps its old value
+                                 -- (unreachable through `hFlush`, which has checked `clValid` first)
   | some e =>
     let c := { c with expected := e }
     let hb := headBytes code (getAll h)
@@ -254,8 +255,13 @@ inductive Op where
   | finish (b : Option Bytes)
   deriving Repr, BEq, DecidableEq
 
-/-- `RequestHandler.flush(include_footers)` without output transforms -/
-def hFlush (rq : Req) (s : St) : St × Bool :=
+/-- what `flush()` checks before it starts the response (after the `fix:` commit 28dd4cc): a `Content-Length`
+    in the handler's header map must be something `parse_int` accepts — `headers["Content-Length"]` (all values
+    joined by ",") is one non-empty run of ASCII digits -/
+def clValid (h : HMap) : Bool := !hhas h nCL || (parseDec (hget h nCL)).isSome
+
+/-- `RequestHandler.flush(include_footers)` without output transforms, after the Content-Length check -/
+def hFlushCore (rq : Req) (s : St) : St × Bool :=
   let chunk := s.buf.flatten
   let s := { s with buf := [] }
   if !s.headersWritten then
@@ -267,6 +273,11 @@ def hFlush (rq : Req) (s : St) : St × Bool :=
     let (c, r) := cWrite s.conn chunk
     ({ s with conn := c }, r)
   else (s, false)
+
+/-- `RequestHandler.flush(include_footers)`: while the headers are unwritten, a Content-Length that `parse_int`
+    rejects makes `flush` raise ValueError before any state is touched (buffer, `_headers_written`, connection) -/
+def hFlush (rq : Req) (s : St) : St × Bool :=
+  if !s.headersWritten && !clValid s.hdrs then (s, true) else hFlushCore rq s
 
 /-- `_clear_representation_headers` (`clear_header` = delete when present) -/
 def clearRepr (h : HMap) : HMap := hdel (hdel (hdel h nCE) nCLang) nCT
